@@ -3391,8 +3391,8 @@ impl<'a, R: FileManager> FrontendCtx<'a, R> {
             let ty = self.extract_type(type_ann, file_name.clone())?;
             let opt_ty = match k.optional {
                 Some(opt) => match opt {
-                    TruePlusMinus::True => Optionality::Optional(ty),
-                    TruePlusMinus::Plus => Optionality::Required(ty),
+                    // `+?` adds the optional modifier, exactly like `?`
+                    TruePlusMinus::True | TruePlusMinus::Plus => Optionality::Optional(ty),
                     TruePlusMinus::Minus => {
                         return self
                             .error(&anchor, DiagnosticInfoMessage::MappedTypeMinusNotSupported);
@@ -3425,7 +3425,7 @@ impl<'a, R: FileManager> FrontendCtx<'a, R> {
         }
         let make_opt = |ty: Runtype| -> Optionality<Runtype> {
             match k.optional {
-                Some(TruePlusMinus::True) => Optionality::Optional(ty),
+                Some(TruePlusMinus::True) | Some(TruePlusMinus::Plus) => Optionality::Optional(ty),
                 _ => Optionality::Required(ty),
             }
         };
